@@ -391,6 +391,15 @@ def tables_note(run, proof):
                       no_input=True)
 
 
+def src_key(cur):
+    """short stable name of a topology source line"""
+    cur = cur or "?"
+    if "|" in cur or "synthetic" in cur:
+        import hashlib
+        return "hist-" + hashlib.md5(cur.encode()).hexdigest()[:8] if "|" in cur else re.sub(r"\W+", "_", cur[5:])[:40]
+    return os.path.basename(cur.split()[-1])
+
+
 def topo_cases(run, T, srcs):
     """load each source with the real library; returns the derived tsn/asn lines (objects of loaded topologies)
     and evaluates the C-side checks (contract of every object x 9 flag words x every size; round trip; one text per level)"""
@@ -406,7 +415,7 @@ def topo_cases(run, T, srcs):
                       "kind: input\nstderr:\n" + err[-3000:])
     for l in out:
         if l.startswith("topo "):
-            cur = l
+            cur = re.sub(r" (LOADED|LOADFAIL|DONE objs=.*)$", "", l)
             if l.endswith("LOADED"):
                 loaded += 1
             if l.endswith("DONE objs=0 bad=0"):
@@ -421,10 +430,10 @@ def topo_cases(run, T, srcs):
             run.count(l, nontrivial=n > 1, kind="level")
             # bridges (host vs PCI) and OS devices of one special level legitimately differ (DESIGN 6.C11)
             if differ and d not in (-4, -6):
-                run.violation("level-type-text-differs:%s:%d" % (os.path.basename((cur or "").split()[-2] if cur else "?"), d),
+                run.violation("level-type-text-differs:%s:%d" % (src_key(cur), d),
                               "objects of one level print different type texts: %s (%s)" % (l, cur), "kind: input\ncase: %s\n%s\n" % (cur, l))
         elif l.startswith("robj "):
-            src = (cur or "?").rsplit(" ", 1)[0]
+            src = cur or "?"
             if "LOOP" in l:
                 run.violation(K_LOOP, "on a loaded topology (%s): %s" % (src, l), "kind: input\ncase: %s\n%s\n" % (src, l))
             elif "ASSERT" in l or ("roundtrip" in l and "type=16" in l):
@@ -448,6 +457,10 @@ def xml_sources():
     xs = sorted(glob.glob(os.path.join(C.REPO, "tests/hwloc/xml/*.xml")))
     xs += sorted(glob.glob(os.path.join(CORPUS, "*.xml")))
     return ["topo xml " + x for x in xs] + ["topo synthetic " + s for s in G.SYNTHETIC]
+
+
+def history_sources(rng, tier):
+    return ["topo " + h for h in G.history_cases(rng, tier)]
 
 
 def corpus_lines():
@@ -511,8 +524,9 @@ def check(run, replay=None):
     tier_spec(run, ck)
     tables_note(run, proof)
 
+    hist = history_sources(rng, run.tier)
     # 1b. hwloc_type_sscanf_as_depth / hwloc_get_type_depth_with_attr on loaded topologies
-    srcs = G.lv_sources(C.REPO, CORPUS)
+    srcs = G.lv_sources(C.REPO, CORPUS) + [h[5:].replace(" | ", "|").replace(" ", "_") for h in hist[:6]]
     rc, out, err = T.c(["lv " + x for x in srcs])
     dcases = []
     for l in out:
@@ -525,7 +539,8 @@ def check(run, replay=None):
     ck.judge(dcases, ac, am, "depth")
 
     # 2. objects of real topologies
-    loaded, derived = topo_cases(run, T, xml_sources())
+    run.bump("topo:with-post-load-history", len(hist))
+    loaded, derived = topo_cases(run, T, xml_sources() + hist)
     run.bump("topo:loaded", loaded)
     if run.tier == "quick" and len(derived) > 2500:
         keep = set(rng.sample(range(len(derived)), 2500))
